@@ -130,3 +130,10 @@ PROPS["C34"] = dict(explanation="Bounded symbolic execution of start-up WAL clea
     runs=[dict(pkg="executor", files=["c08_fixed.go", "c09_variable.go", "c11_range.go", "c01_walsim.go", "c06_replay.go", "c34_cleanup.go"], entries=["VerifC34CrashInCleanup", "VerifC34PowerLossInCleanup", "VerifC34HeaderStates"], must_reach=["entered", "restarted", "checked"], opts=dict(timeout=60))],
     bounds=["one fixed-length bucket; left-over WAL with 2 committed transactions (same or different interval), values symbolic", "crash before every file-mutating call of the second start-up", "header: file-status and replay-state bytes arbitrary (0..255)"],
     outside=["several left-over WAL files at once", "variable-length buckets (C02's duplication applies)"], stubs=FS_STUBS, assumptions=COMMON_ASSUME)
+
+
+PROPS["C29"] = dict(explanation="Bounded symbolic execution of the real ColumnSeries.ToRowSeries -> SerializeColumnsToRows (GetMissingAndTypeCoercionColumns, AlignedSize padding, io.Serialize per element) and RowSeries.ToColumnSeries -> Rows.GetColumn/get*Column (offset arithmetic, SwapSliceByte) on a column series whose schema is case-split and whose values are symbolic; the reconstructed columns must have the same names, order, Go types and values.",
+    runs=[dict(pkg="utils/io", files=["c29_rows.go"], entries=["VerifC29RoundTrip"], must_reach=["entered", "converted"], opts=dict(timeout=30))],
+    bounds=["Epoch + 1..3 columns, each of float32, int32, float64, int64, int16, uint8, uint16, uint32, uint64, bool or STRING16 ([16]rune, every rune symbolic) (every combination)", "1..2 rows, with and without 8-byte alignment padding", "values: any value of the integer types; floats k/16 (float32, |k|<=2^20) and k/1024 (float64, |k|<=2^40)"],
+    outside=["BYTE(int8) columns", "more than 3 value columns or 2 rows", "NaN/Inf and floats that are not dyadic with small numerators (the byte copy does not depend on the value)"],
+    stubs=["io.SwapSliceByte/SwapSliceData/CastToByteSlice/DataToByteSlice: typed little-endian reinterpretation", "reflect: engine mini-reflect"], assumptions=COMMON_ASSUME)
